@@ -90,17 +90,24 @@ def run(tier):
     eout = os.path.join(wd, "e2e.ndjson")
     run_harness("vh-driver", ["c11", "e2e", eout], timeout=900)
     erows = read_ndjson(eout)
-    if len(erows) < 40 or sum(len(x["accepts"]) for x in erows) < 60:
-        raise ToolError("c11 e2e: %d scenarios, %d shard-aware connections" % (len(erows), sum(len(x["accepts"]) for x in erows)))
+    prow = [x for x in erows if x.get("kind") == "ports"]
+    mrow = [x for x in erows if x.get("kind") == "msb"]
+    if (len(prow) < 40 or sum(len(x["accepts"]) for x in prow) < 60 or len(mrow) < 4) and not v.violations:
+        raise ToolError("c11 e2e: %d port scenarios, %d shard-aware connections, %d restart scenarios" % (len(prow), sum(len(x["accepts"]) for x in prow), len(mrow)))
     acc, re_, rej = validate_trace("Trace_ShardPortE2E", "Trace_ShardPortE2E.cfg", eout, timeout=300)
     if not acc:
         raise ToolError("Trace_ShardPortE2E did not consume its input (line %s)" % rej)
     for b in sorted({int(m.group(1)) - 1 for m in _re.finditer(r'<<"BAD", (\d+)>>', re_.out)})[:5]:
         x = erows[b]
-        v.violation("connection level: %d shards, allowed source ports [%d, %d], ports held by others %s: the node's shard-aware port accepted (source port, shard) %s %s" % (
-            x["nr"], x["lo"], x["hi"], x["occupied"], x["accepts"], x["start_err"][:100]), [x])
-    v.add(e2e_scenarios=len(erows), e2e_shard_aware_connections=sum(len(x["accepts"]) for x in erows),
-          e2e_scenarios_with_taken_ports=sum(1 for x in erows if x["occupied"]))
+        if x.get("kind") == "msb":
+            v.violation("connection level: a node restarted with sharding parameters (shards, ignored msb) %s: what the session publishes for it / computes with it after each restart: %s" % (
+                [s_["node"] for s_ in x["steps"]], [{"published": s_["published"], "shards": [t[1] for t in s_["shards"]]} for s_ in x["steps"]]), [x])
+            continue
+        v.violation("connection level (%s): %d shards, allowed source ports [%d, %d], ports held by others %s: the node's shard-aware port accepted (source port, shard) %s %s" % (
+            "IPv6 node" if x.get("v6") else "IPv4 node", x["nr"], x["lo"], x["hi"], x["occupied"], x["accepts"], x["start_err"][:100]), [x])
+    v.add(e2e_scenarios=len(erows), e2e_shard_aware_connections=sum(len(x["accepts"]) for x in prow),
+          e2e_scenarios_with_taken_ports=sum(1 for x in prow if x["occupied"]), e2e_ipv6_scenarios=sum(1 for x in prow if x.get("v6")),
+          e2e_restart_scenarios=len(mrow), e2e_restart_steps_judged=sum(1 for x in mrow for s_ in x["steps"] if s_["covered"] >= s_["node"][0]))
     v.assumptions += ["the reference is the algorithm stated in the property (bias by 2^63, shift, multiply, high 64 bits), transcribed into limb arithmetic",
                       "source ports of real shard-aware connections (end-to-end half) belong to the mock-cluster checks"]
     return v.finish()
